@@ -108,3 +108,42 @@ func VH_dbg_c13() {
 	p, _, err := s.st.Get(ki, false)
 	vrt.Log("Get p-nil %v err %v", p == nil, err)
 }
+
+// C13-S5c: the colliding keys' latest records live in a later data file (after a rotation) and
+// every key is read twice: the second read of the key that does not own the tree slot is served
+// from the collision table; then a restart and a GC pass.
+func VH_C13_S5_rotation_reread() {
+	collideHash()
+	s := newScen(768, false, "ca", "cb", "kx")
+	s.noVersion = map[string]bool{"ca": true, "cb": true}
+	s.setS("ca")
+	s.setS("cb")
+	s.setS("kx") // file0 full
+	s.setS("kx")
+	if vrt.Bool("ca-first") {
+		s.setS("ca")
+		s.setS("cb") // file1 full
+	} else {
+		s.setS("cb")
+		s.setS("ca") // file1 full
+	}
+	s.setS("kx") // file2 = head
+	s.flush()
+	s.checkAll("first-read")
+	s.checkAll("second-read")
+	switch vrt.Choice("then", 3) {
+	case 0:
+		s.reopen(vrt.Choice("rm", 2) * 7)
+		s.checkAll("after-restart")
+		s.checkAll("after-restart-second-read")
+	case 1:
+		s.gc(0, 1, vrt.Bool("merge"))
+		s.checkAll("after-gc")
+		s.checkAll("after-gc-second-read")
+	case 2:
+		s.setS("cb")
+		s.checkAll("after-overwrite")
+		s.checkAll("after-overwrite-second-read")
+	}
+	s.close()
+}
